@@ -203,6 +203,28 @@ def check_rows(fam, i, cseed):
     return viol, info
 
 
+def coexisting_rows(fam, rows, tier):
+    """the value clauses of the tables once more with MANY members alive at the same time: all objects of the batch are constructed
+    first (a benchmark list built up-front), then each is evaluated at its published argmin / argmax; state shared between the
+    instances of a family (class-level coefficient buffers) shows here and nowhere in a one-at-a-time sweep"""
+    g, tmin, tmax, tlip, names = _tables(fam)
+    objs = [(i, oc.guarded(oc.construct, fam, (i,))) for i in rows]
+    viol = []
+    for i, (p, err) in objs:
+        if err is not None or p is None:
+            continue
+        for tab, name in ((tmin, names[0]), (tmax, names[1])):
+            tv, tx = float(tab[i][0]), float(tab[i][1])
+            val, e = oc.guarded(lambda: oc.real_eval(p, [tx]))
+            if e is not None or not abs(val - tv) <= 1e-3:
+                viol.append({"property": "C18", "part": "table", "family": fam, "row": i, "table": name, "tier": tier,
+                             "clause": "value_when_coexisting", "batch_rows": list(rows),
+                             "observed": {"published_value": tv, "published_point": tx, "value_of_this_instance_there": val if e is None else e,
+                                          "note": "all %d instances of the batch were constructed before any was evaluated" % len(objs)}})
+                break
+    return viol
+
+
 # ---------------------------------------------------------------------------------------------------------------
 def run(tier, r):
     t0 = time.time()
@@ -236,6 +258,12 @@ def run(tier, r):
         stats["members_with_empty_or_duplicate_variable_names"] += 1 if info.get("duplicate_names") else 0
     n_meta = len(mem)
     n_rows = 0
+    for fam in ("hill", "shekel"):
+        rows_c = sorted(r.sample(range(1000), 40 if not full else 400))
+        cv, ce = oc.guarded(coexisting_rows, fam, rows_c, tier)
+        violations += (cv or [])[:10]
+        stats.setdefault("coexisting_instances_checked", 0)
+        stats["coexisting_instances_checked"] += len(rows_c)
     for fam in ("hill", "shekel"):
         rows = range(1000) if full else sorted(r.sample(range(1000), 70))
         g, tmin, tmax, tlip, names = _tables(fam)
